@@ -418,7 +418,7 @@ fn run_until_none(d: &mut SDriver, rng: &mut Rng, chunk: &mut Chunking, pol: &Po
 
 pub fn run(ctx: &Ctx, evidence: Option<&PathBuf>) -> i32 {
     ctx.run_fixed("directed", ctx.dn(300), run_chain);
-    let n = ctx.size(30_000, 3_000_000);
+    let n = ctx.size3(30_000, 3_000_000, 5);
     ctx.run_cases("chains", n, run_chain);
     let _ = Scale::Full;
     ctx.gate("handoffs_stream_to_request", 500);
